@@ -170,15 +170,16 @@ Record req := mkReq {
 Record resp := mkResp {
   p_body : bytes;
   p_mime : N;
-  p_cached : bool }.
+  p_cached : bool;     (* answered from the cache *)
+  p_stored : bool }.   (* the file was read and put into the cache (not observable in the response itself) *)
 
 (* a cache hit answers from the cache; otherwise the file is read, stored when it fits, and served *)
 Definition handle (c : cache) (q : req) : outcome (cache * resp) :=
   match lookup c (q_route q) (q_host q) (q_now q) with
-  | Ok (Some it) => Ok (c, mkResp (i_data it) (i_mime it) true)
+  | Ok (Some it) => Ok (c, mkResp (i_data it) (i_mime it) true false)
   | Ok None =>
     match store c (q_route q) (q_host q) (q_fs q) (q_mime q) (q_now q) with
-    | Ok c' => Ok (c', mkResp (q_fs q) (q_mime q) false)
+    | Ok c' => Ok (c', mkResp (q_fs q) (q_mime q) false (blen (q_fs q) <=? c_limit c))
     | Err e => Err e
     | Crash w => Crash w
     end
@@ -219,6 +220,19 @@ Fixpoint htrace (c : cache) (qs : list req) : list op :=
     end
   end.
 
+(* ---- the numeric rendering of a run, used to compare the extracted program with vm_compute inside Coq ---- *)
+Definition render_item (it : item) : list N :=
+  [i_host it; i_mime it; i_time it; blen (i_data it); blen (i_route it)] ++ i_route it ++ i_data it.
+
+Definition render_run (lim tl : N) (ops : list op) : list N :=
+  let (outs, fin) := run (empty lim tl) ops in
+  concat (map (fun x => match x with None => [0] | Some it => 1 :: render_item it end) outs) ++
+  match fin with
+  | Ok c => [2; c_size c; N.of_nat (length (c_data c))] ++ concat (map render_item (c_data c))
+  | Crash w => [3; w]
+  | Err e => [4; e]
+  end.
+
 (* ---- abstract specification: a finite map from (route, host) to the value most recently stored.
    It never evicts and never expires; the cache must be a sub-map of it. ---- *)
 Definition key := (list N * N)%type.
@@ -247,6 +261,20 @@ Definition spec (ops : list op) : amap := fold_left spec_step ops [].
 (* the operation stores a value for key k *)
 Definition sets_key (k : key) (o : op) : Prop :=
   match o with OSet r h _ _ _ => (r, h) = k | OGet _ _ _ => False end.
+
+Definition req_key (q : req) : key := (q_route q, q_host q).
+
+(* handler-level abstract map: what the most recent *storing* request put there for each key *)
+Fixpoint hspec (c : cache) (qs : list req) (m : amap) : amap :=
+  match qs with
+  | [] => m
+  | q :: rest =>
+    match handle c q with
+    | Ok (c', p) =>
+      hspec c' rest (if p_stored p then (req_key q, (q_fs q, q_mime q, q_now q)) :: m else m)
+    | _ => m
+    end
+  end.
 
 (* ---- hypotheses of the sequence theorems ---- *)
 (* the caller's guard: every value stored is no larger than the limit (static.rs: size_limit >= contents.len()) *)
